@@ -26,9 +26,13 @@ where
     if let Some(restrictions) = restrictions {
         writeln!(
             writer,
-            "  fn check_restrictions(&self, _restrictions: Option<Rc<restrictions::Restrictions>>) -> error::SoapResult<()>  {{"
+            "  fn check_restrictions(&self, restrictions: Option<Rc<restrictions::Restrictions>>) -> error::SoapResult<()>  {{"
         )?;
 
+        // a type derived from this one hands its own facets down: they apply to the same value
+        writeln!(writer, "        if restrictions.is_some() {{")?;
+        writeln!(writer, "            self.value.check_restrictions(restrictions)?;")?;
+        writeln!(writer, "        }}")?;
         writeln!(writer, "        let restrictions = Some(")?;
         restrictions.write_xml(writer)?;
         writeln!(writer, ");")?;
